@@ -407,6 +407,54 @@ func c20Chunks(tier string) []SeqChunk {
 		}
 		rec(nil)
 	}})
+	// the default "median of the last three samples" average: drawing a frame between samples must not disturb it
+	chunks = append(chunks, SeqChunk{Name: "c20-median", Gen: func(env *SeqEnv) {
+		vals := []time.Duration{time.Second, 2 * time.Second, 4 * time.Second, 8 * time.Second}
+		depth := 4
+		if tier == "thorough" {
+			depth = 6
+		}
+		var rec func(seq []time.Duration)
+		rec = func(seq []time.Duration) {
+			if len(seq) > 0 {
+				seq := append([]time.Duration{}, seq...)
+				env.Case(fmt.Sprintf("median seq=%v", seq), func() (string, bool, string, string) {
+					dec := decor.MovingAverageETA(decor.ET_STYLE_GO, nil, nil)
+					ed := dec.(decor.EwmaDecorator)
+					win := [3]time.Duration{}
+					var outs []string
+					for i, d := range seq {
+						ed.EwmaUpdate(1, d)
+						win[0], win[1], win[2] = win[1], win[2], d
+						a, b, c := win[0], win[1], win[2]
+						if a > b {
+							a, b = b, a
+						}
+						if b > c {
+							b, c = c, b
+						}
+						if a > b {
+							a, b = b, a
+						}
+						out, _ := dec.Decor(decor.Statistics{Total: 3, Current: 1}) // two items remain
+						outs = append(outs, out)
+						got, err := time.ParseDuration(out)
+						if err != nil || got != 2*b {
+							return strings.Join(outs, ","), true, "median-eta", fmt.Sprintf("after samples %v (a frame drawn after each) the ETA for 2 items reads %q, median of the last three is %v", seq[:i+1], out, b)
+						}
+					}
+					return strings.Join(outs, ","), len(seq) > 3, "", ""
+				})
+			}
+			if len(seq) == depth {
+				return
+			}
+			for _, v := range vals {
+				rec(append(seq, v))
+			}
+		}
+		rec(nil)
+	}})
 	// every sample reaches the built-in estimators however deeply they are wrapped (through a real bar)
 	chunks = append(chunks, SeqChunk{Name: "c20-wrapped", Gen: func(env *SeqEnv) {
 		for depth := 0; depth <= 3; depth++ {
